@@ -154,6 +154,9 @@ def resolve(pub, segs):
                 return True, key + " . " + rest[0]
             if len(rest) >= 1 and any(e["kind"] in ("Mod",) for e in pub[key]):
                 return False, "%s has no public item `%s`" % (key, rest[0])
+            if len(rest) == 1 and rest[0] in ("from", "into", "default", "clone") and any(e["kind"] in ("Struct", "Enum", "TyAlias", "Union") for e in pub[key]):
+                # a method of a std prelude trait (From / Into / Default / Clone) called through the type
+                return True, key + " . " + rest[0] + " (prelude trait method)"
             # enum variant followed by nothing else / trait static call `Trait::method`
             return False, "`%s` is not an associated item of %s" % ("::".join(rest), key)
     return False, "no public item `::darling::%s`" % segs[0]
